@@ -59,6 +59,8 @@ def _sub(k):
     if k == 2:
         res += ["B2"]  # a battery inverter with two batteries counts as two nodes
         res += ["BB"]  # two battery inverters sharing one battery
+    if k == 3:
+        res += ["BX"]  # three battery inverters, two batteries: i1 -> {b1, b2}, i2 -> b2, i3 -> b1
     if k >= 2:
         for f in _forest(k - 1, None):
             res.append(("M", f))
@@ -125,6 +127,16 @@ def build(forest, id_scheme):
             comps.append(Component(b, CC.BATTERY))
             conns.append(Connection(i1, b))
             conns.append(Connection(i2, b))
+            return
+        if t == "BX":
+            i1, i2, i3 = new("B"), new("B"), new("B")
+            for i in (i1, i2, i3):
+                comps.append(Component(i, CC.INVERTER, InverterType.BATTERY))
+                conns.append(Connection(parent, i))
+            b1, b2 = new("bat"), new("bat")
+            for b in (b1, b2):
+                comps.append(Component(b, CC.BATTERY))
+            conns.extend([Connection(i1, b1), Connection(i1, b2), Connection(i2, b2), Connection(i3, b1)])
             return
         if t == "P":
             i = new("P")
